@@ -107,6 +107,48 @@ func checkC18Expr(c c18ExprCase) *evid.Fail {
 		f.Sig = "reused-parser:" + f.Sig
 		return f
 	}
+	// the same parser object after expressions it had to reject (the variables of this one already seen when the
+	// error is met: a bracket left open, a dangling operator, a stray closing bracket), then the expression itself
+	if len(occ) > 0 {
+		q := strings.Join(quoteIdents(occ), " * ")
+		for k, bad := range []string{q + " * (" + q + " + 1", q + " +", "(" + c.Text, c.Text + " )", c.Text + " " + quoteIdents(occ)[0]} {
+			var badErr error
+			if g := guard(func() {
+				badErr = p.ParseString(bad)
+				err = p.ParseString(c.Text)
+			}); g != nil {
+				g.Msg = fmt.Sprintf("%q after the rejected %q on one parser: %s", c.Text, bad, g.Msg)
+				return g
+			}
+			if badErr == nil {
+				continue // (C02 decides what is malformed; here only what follows a rejection matters)
+			}
+			if err != nil {
+				return evid.F("well-formed-rejected", "%q rejected on a parser that had rejected %q before: %v", c.Text, bad, err)
+			}
+			if f := checkNameList(fmt.Sprintf("expression %q on a parser that had rejected %q before", c.Text, bad), p.VariableNames(), occ, strings.ToUpper); f != nil {
+				f.Sig = fmt.Sprintf("after-rejected-input:%s", f.Sig)
+				_ = k
+				return f
+			}
+		}
+		// the calculator likewise: a rejected expression, then this one - the automatic variables are all there
+		calcR := calculator.NewExpressionCalculator()
+		var badErr error
+		if g := guard(func() {
+			badErr = calcR.SetExpression(q + " * (" + q + " + 1")
+			err = calcR.SetExpression(c.Text)
+		}); g != nil {
+			return g
+		}
+		if badErr != nil && err == nil {
+			for _, o := range occ {
+				if calcR.DefaultVariables().FindByName(o) == nil {
+					return evid.F("after-rejected-input:autovars-missing", "%q set on a calculator that had rejected another expression with the same variables: no default variable for %q", c.Text, o)
+				}
+			}
+		}
+	}
 	// the token-list entry (tokens taken from a parser that compiled the text) reports the same names
 	p2 := cparsers.NewExpressionParser()
 	if g := guard(func() { err = p2.ParseTokens(p.OriginalTokens()) }); g != nil {
@@ -582,11 +624,21 @@ func checkC18Coll(c c18CollCase) *evid.Fail {
 	var res *evid.Fail
 	if g := guard(func() {
 		vc := variables.NewVariableCollection()
-		fc := functions.NewFunctionCollection()
+		var fc functions.IFunctionCollection = functions.NewFunctionCollection()
 		var model []c18Entry
 		funcsByID := map[int]functions.IFunction{}
 		callerValues := map[int]*variants.Variant{} // the value objects handed to Add stay the caller's
 		nextID := 0
+		if c.Kind == "default-functions" {
+			// the collection of standard functions is an ordered list like any other: it starts with its 37 entries
+			d := functions.NewDefaultFunctionCollection()
+			for _, f := range d.GetAll() {
+				nextID++
+				funcsByID[nextID] = f
+				model = append(model, c18Entry{f.Name(), nextID, nextID})
+			}
+			fc = d
+		}
 		find := func(name string) int {
 			for i, e := range model {
 				if strings.EqualFold(e.name, name) {
@@ -777,8 +829,12 @@ func TestC18_RapidCollections(t *testing.T) {
 	names := []string{"a", "A", "b", "B", "ab", "Ab", "AB", "x", "q[", "q{", "r^", "r~", "k@", "k`", "é", "É", "ⱥb", "ȺB", "ſx", "SX", "sx"}
 	opKinds := []string{"add", "add", "add", "find", "find", "locate", "remove", "removeByName", "clear", "clearValues"}
 	runRapid(t, pick(30000, 200000), 181818, func(rt *rapid.T) {
-		c := c18CollCase{Kind: rapid.SampledFrom([]string{"variables", "functions"}).Draw(rt, "kind")}
+		c := c18CollCase{Kind: rapid.SampledFrom([]string{"variables", "functions", "default-functions"}).Draw(rt, "kind")}
 		n := rapid.IntRange(1, 16).Draw(rt, "n")
+		names := names
+		if c.Kind == "default-functions" {
+			names = []string{"max", "MAX", "Sum", "rnd", "RANDOM", "If", "array", "Ticks", "NULL", "date", "a", "A", "zz"}
+		}
 		long := rapid.IntRange(0, 19).Draw(rt, "long") == 0
 		if long {
 			n = rapid.IntRange(40, 160).Draw(rt, "longn") // big collections: dozens of entries
@@ -836,6 +892,26 @@ func TestC18_ExhaustiveCollections(t *testing.T) {
 			if f := checkC18Coll(c); f != nil {
 				rec.Fail(f, c)
 			}
+		}
+	})
+	// the collection of standard functions: the same list discipline from its 37 entries on
+	dalpha := []c18CollOp{{Op: "find", Name: "max"}, {Op: "find", Name: "RANDOM"}, {Op: "find", Name: "Array"}, {Op: "removeByName", Name: "MAX"}, {Op: "removeByName", Name: "random"},
+		{Op: "remove", Idx: 0}, {Op: "remove", Idx: 36}, {Op: "add", Name: "Max"}, {Op: "add", Name: "zz"}, {Op: "find", Name: "ZZ"}, {Op: "clear"}}
+	didx := make([]string, len(dalpha))
+	for i := range dalpha {
+		didx[i] = fmt.Sprint(i)
+	}
+	enumStrings(didx, depth-1, false, func(parts []string) {
+		ops := make([]c18CollOp, len(parts))
+		for i, p := range parts {
+			var k int
+			fmt.Sscan(p, &k)
+			ops[i] = dalpha[k]
+		}
+		c := c18CollCase{"default-functions", ops}
+		rec.Case("default-functions"+fmt.Sprint(parts), true, func() interface{} { return c })
+		if f := checkC18Coll(c); f != nil {
+			rec.Fail(f, c)
 		}
 	})
 }
